@@ -338,8 +338,8 @@ def run(ctx: Ctx) -> Report:
     rsclient.build()
     PG.self_test()
     n_enum = 16 if ctx.quick else 48
-    n_hyp = ctx.pick(1200, 20000)
-    n_prog, n_var = ctx.pick((14, 4), (190, 6))
+    n_hyp = ctx.pick(2500, 20000)
+    n_prog, n_var = ctx.pick((30, 4), (190, 6))
     tasks: List[Tuple[Any, ...]] = []
     # core.mix32(seed, shard, ...) begins with seed ^ shard, so small seeds would only permute the shard streams;
     # avalanche the seed first so that different VERIF_SEEDs explore different cases.
